@@ -10,11 +10,12 @@ CONSTANTS
   MaxBlocks = 6
   MaxRegs = 1
   MaxGap = 3
+  LongGaps = {}
   AllHints = FALSE
   OrphanRescan = FALSE
   CanonIds = FALSE
   Repaired = FALSE
 VIEW CView
-INVARIANTS CTypeOK TypeOK CaughtUp RewindWithinSafety ViewIsBranch ClientMissedRight TargetIsFork ConfTimely SpendTimely ConfSound SpendSound ConfHintSafe SpendHintSafe NoPanic
+INVARIANTS CTypeOK TypeOK CaughtUp RewindWithinSafety ViewIsBranch ClientMissedRight TargetIsFork FollowsActiveConf FollowsActiveSpend FollowsActiveHints ConfTimely SpendTimely ConfSound SpendSound ConfHintSafe SpendHintSafe NoPanic
 PROPERTIES PConfTruthful PSpendTruthful PNegOnlyOnDisconnect PReorgOnlyOnDisconnect PDoneOnlyDeep
 CHECK_DEADLOCK FALSE
